@@ -217,7 +217,9 @@ Definition lmon {M} (inner : M -> list N -> list N -> M * list (nat * nat)) (nen
               | [7%N; _], _ => if N.eqb (last o 0%N) 9%N then [(1%nat, 3%nat)] else []
               | _, _ => []
               end in
-    ((m', push_granted l' o), f ++ f')
+    (* clause (2,5): a Lock call that returns an error returns context.Canceled (status 7 = it returned another error) *)
+    let f'' := if existsb (N.eqb 7%N) o then [(2%nat, 5%nat)] else [] in
+    ((m', push_granted l' o), f ++ f' ++ f'')
   | None => (ml, [])
   end.
 
